@@ -230,7 +230,11 @@ pub fn check_one(model: &ZoneModel, tl: &Timeline, zr: TimeZoneRef<'_>, f: &Fiel
     let z = model.z;
     let l = f.civil_secs();
     let got = DateTime::find(f.y, f.mo, f.d, f.h, f.mi, f.s, f.ns, zr);
-    let far = (f.y as i64).abs() > i32::MAX as i64 - 200;
+    // "far": the property's round trip is not definable (a candidate or a gap half may leave the supported range, or a DST rule cannot be
+    // evaluated for the searched year): only the error kind is asserted there. Everywhere else the search must succeed and equal the model.
+    let maxoff = offsets(z).iter().map(|o| (*o as i128).abs()).max().unwrap_or(0);
+    let rule_year_out = matches!(z.trailer, MTrailer::Alt(_)) && !((i32::MIN as i64 + 2)..=(i32::MAX as i64 - 2)).contains(&(f.y as i64));
+    let far = l < cal::min_unix() as i128 + 2 * maxoff + 2 || l > cal::max_unix() as i128 - 2 * maxoff - 2 || rule_year_out;
     let exp = if far { None } else { model_find(model, tl, l) };
     let desc = || format!("zone {{trans: {:?}, types: {:?}, leaps: {:?}, trailer: {:?}}} local {:04}-{:02}-{:02}T{:02}:{:02}:{:02}", z.trans, z.types, z.leaps, z.trailer, f.y, f.mo, f.d, f.h, f.mi, f.s);
     let list: Vec<FoundDateTimeKind> = match got {
@@ -278,6 +282,10 @@ pub fn check_one(model: &ZoneModel, tl: &Timeline, zr: TimeZoneRef<'_>, f: &Fiel
         Some(e) => e,
         None => {
             st.exclude("model answer unspecified for this local time (range limits / leap extremes)");
+            if focus == Focus::C17 {
+                // the buffer-based search must still mirror the allocating one
+                check_find_n(&list, f, zr, stale, st, &desc)?;
+            }
             return Ok(());
         }
     };
@@ -396,68 +404,94 @@ pub fn check_one(model: &ZoneModel, tl: &Timeline, zr: TimeZoneRef<'_>, f: &Fiel
         }
     }
     if focus == Focus::C17 {
-        let k = list.len();
-        let found = DateTime::find(f.y, f.mo, f.d, f.h, f.mi, f.s, f.ns, zr).unwrap();
-        for n in 0..=k + 2 {
-            st.eval(1);
-            // buffer pre-filled with the stale entries of the previous search (cycled), or sentinels
-            let mut buf: Vec<Option<FoundDateTimeKind>> = (0..n).map(|i| if stale.is_empty() { None } else { stale[i % stale.len()] }).collect();
-            let pre = buf.clone();
-            let (data, count, exh, uq, ea, la) = {
-                let r = DateTime::find_n(&mut buf, f.y, f.mo, f.d, f.h, f.mi, f.s, f.ns, zr).map_err(|e| format!("{}: find succeeded but find_n(len {n}) failed: {e:?}", desc()))?;
-                (r.data().to_vec(), r.count(), r.is_exhaustive(), r.unique(), r.earliest(), r.latest())
-            };
-            let m = n.min(k);
-            if count != k {
-                return Err(format!("{}: find_n(len {n}).count() = {count}, the allocating search returns {k}", desc()));
-            }
-            if exh != (n >= k) {
-                return Err(format!("{}: find_n(len {n}).is_exhaustive() = {exh} with {k} results", desc()));
-            }
-            if data.len() != m {
-                return Err(format!("{}: find_n(len {n}).data() has {} entries, expected min(n,k) = {m}", desc(), data.len()));
-            }
-            for i in 0..m {
-                match &data[i] {
-                    Some(x) if kind_eq(x, &list[i]) => {}
-                    other => return Err(format!("{}: find_n(len {n}).data()[{i}] = {other:?}, allocating search has {:?}", desc(), list[i])),
-                }
-            }
-            for i in m..n {
-                let same = match (&buf[i], &pre[i]) {
-                    (None, None) => true,
-                    (Some(a), Some(b)) => kind_eq(a, b),
-                    _ => false,
-                };
-                if !same {
-                    return Err(format!("{}: find_n(len {n}) touched slot {i} beyond the {m} it reports", desc()));
-                }
-            }
-            if n >= k {
-                let fo = |d: Option<DateTime>| d.map(|d| fields_of(&d));
-                if fo(uq) != fo(found.unique()) || fo(ea) != fo(found.earliest()) || fo(la) != fo(found.latest()) {
-                    return Err(format!("{}: exhaustive find_n(len {n}) unique/earliest/latest = {:?}/{:?}/{:?} differ from the allocating search's {:?}/{:?}/{:?} (stale prefill: {})", desc(), fo(uq).map(|x| x.7), fo(ea).map(|x| x.7), fo(la).map(|x| x.7), fo(found.unique()).map(|x| x.7), fo(found.earliest()).map(|x| x.7), fo(found.latest()).map(|x| x.7), !stale.is_empty()));
-                }
-            }
-            if n < k {
-                st.class("buffer_shorter_than_result");
-            }
-            if stale.len() > k && n > k {
-                st.class("stale_prefill_longer_than_result");
-            }
-        }
-        // this search's results become the next search's stale prefill
-        *stale = list.iter().map(|k| Some(*k)).collect();
-        if stale.is_empty() {
-            // keep something stale around
-            if let Ok(d) = DateTime::from_timespec_and_local(0, 0, tz::LocalTimeType::utc()) {
-                stale.push(Some(FoundDateTimeKind::Normal(d)));
-                stale.push(Some(FoundDateTimeKind::Skipped { before_transition: d, after_transition: d }));
-            }
-        }
+        check_find_n(&list, f, zr, stale, st, &desc)?;
     }
     if st.wants_sample("search") && nt {
         st.sample("search", || json!({"transitions": z.trans.len(), "trailer": format!("{:?}", z.trailer).chars().take(60).collect::<String>(), "leaps": z.leaps.len(), "local": f, "expected": format!("{exp:?}")}));
+    }
+    Ok(())
+}
+
+
+/// C17: the buffer-based search against the allocating one, for every buffer length 0..=k+2, with stale pre-fill.
+#[allow(clippy::too_many_arguments)]
+fn check_find_n(list: &[FoundDateTimeKind], f: &Fields, zr: TimeZoneRef<'_>, stale: &mut Vec<Option<FoundDateTimeKind>>, st: &mut Stats, desc: &dyn Fn() -> String) -> Result<(), String> {
+    let k = list.len();
+    let found = DateTime::find(f.y, f.mo, f.d, f.h, f.mi, f.s, f.ns, zr).unwrap();
+    for n in 0..=k + 2 {
+        st.eval(1);
+        // buffer pre-filled with the stale entries of the previous search (cycled), or - every third length - with entries that
+        // denote the SAME instants as the coming results but in another local time type (a stale slot that compares equal by instant)
+        let mut buf: Vec<Option<FoundDateTimeKind>> = (0..n).map(|i| if stale.is_empty() { None } else { stale[i % stale.len()] }).collect();
+        if n % 3 == 2 {
+            let other = tz::LocalTimeType::new(-9_999, true, Some(b"STALE")).unwrap();
+            for (i, slot) in buf.iter_mut().enumerate() {
+                if let Some(k) = list.get(i) {
+                    let u = match k {
+                        FoundDateTimeKind::Normal(d) => d.unix_time(),
+                        FoundDateTimeKind::Skipped { before_transition, .. } => before_transition.unix_time(),
+                    };
+                    if let Ok(d) = DateTime::from_timespec_and_local(u, f.ns, other) {
+                        *slot = Some(match k {
+                            FoundDateTimeKind::Normal(_) => FoundDateTimeKind::Normal(d),
+                            FoundDateTimeKind::Skipped { .. } => FoundDateTimeKind::Skipped { before_transition: d, after_transition: d },
+                        });
+                    }
+                }
+            }
+        }
+        let pre = buf.clone();
+        let (data, count, exh, uq, ea, la) = {
+            let r = DateTime::find_n(&mut buf, f.y, f.mo, f.d, f.h, f.mi, f.s, f.ns, zr).map_err(|e| format!("{}: find succeeded but find_n(len {n}) failed: {e:?}", desc()))?;
+            (r.data().to_vec(), r.count(), r.is_exhaustive(), r.unique(), r.earliest(), r.latest())
+        };
+        let m = n.min(k);
+        if count != k {
+            return Err(format!("{}: find_n(len {n}).count() = {count}, the allocating search returns {k}", desc()));
+        }
+        if exh != (n >= k) {
+            return Err(format!("{}: find_n(len {n}).is_exhaustive() = {exh} with {k} results", desc()));
+        }
+        if data.len() != m {
+            return Err(format!("{}: find_n(len {n}).data() has {} entries, expected min(n,k) = {m}", desc(), data.len()));
+        }
+        for i in 0..m {
+            match &data[i] {
+                Some(x) if kind_eq(x, &list[i]) => {}
+                other => return Err(format!("{}: find_n(len {n}).data()[{i}] = {other:?}, allocating search has {:?}", desc(), list[i])),
+            }
+        }
+        for i in m..n {
+            let same = match (&buf[i], &pre[i]) {
+                (None, None) => true,
+                (Some(a), Some(b)) => kind_eq(a, b),
+                _ => false,
+            };
+            if !same {
+                return Err(format!("{}: find_n(len {n}) touched slot {i} beyond the {m} it reports", desc()));
+            }
+        }
+        if n >= k {
+            let fo = |d: Option<DateTime>| d.map(|d| fields_of(&d));
+            if fo(uq) != fo(found.unique()) || fo(ea) != fo(found.earliest()) || fo(la) != fo(found.latest()) {
+                return Err(format!("{}: exhaustive find_n(len {n}) unique/earliest/latest = {:?}/{:?}/{:?} differ from the allocating search's {:?}/{:?}/{:?} (stale prefill: {})", desc(), fo(uq).map(|x| x.7), fo(ea).map(|x| x.7), fo(la).map(|x| x.7), fo(found.unique()).map(|x| x.7), fo(found.earliest()).map(|x| x.7), fo(found.latest()).map(|x| x.7), !stale.is_empty()));
+            }
+        }
+        if n < k {
+            st.class("buffer_shorter_than_result");
+        }
+        if stale.len() > k && n > k {
+            st.class("stale_prefill_longer_than_result");
+        }
+    }
+    // this search's results become the next search's stale prefill
+    *stale = list.iter().map(|k| Some(*k)).collect();
+    if stale.is_empty() {
+        // keep something stale around
+        if let Ok(d) = DateTime::from_timespec_and_local(0, 0, tz::LocalTimeType::utc()) {
+            stale.push(Some(FoundDateTimeKind::Normal(d)));
+            stale.push(Some(FoundDateTimeKind::Skipped { before_transition: d, after_transition: d }));
+        }
     }
     Ok(())
 }
@@ -553,8 +587,8 @@ pub fn arb_query() -> SBoxedStrategy<Query> {
 
 pub fn arb_search_case(max_trans: usize, n_queries: usize) -> SBoxedStrategy<SearchCase> {
     (
-        prop_oneof![5 => gens::arb_zone(ZoneCfg { max_trans, leaps: true, wide_times: false }), 1 => gens::arb_zone(ZoneCfg { max_trans, leaps: true, wide_times: true }), 3 => gens::arb_aligned_zone()],
-        prop_oneof![6 => 1900i64..2100, 2 => -3000i64..4000, 1 => (i32::MIN as i64 + 300)..(i32::MAX as i64 - 300)],
+        prop_oneof![5 => gens::arb_zone(ZoneCfg { max_trans, leaps: true, wide_times: false }), 1 => gens::arb_zone(ZoneCfg { max_trans, leaps: true, wide_times: true }), 3 => gens::arb_aligned_zone(), 2 => gens::arb_leap_adjacent_zone(), 1 => gens::arb_range_edge_zone(), 1 => gens::arb_many_types_zone()],
+        prop_oneof![6 => 1900i64..2100, 2 => -3000i64..4000, 1 => (i32::MIN as i64 + 300)..(i32::MAX as i64 - 300), 1 => proptest::sample::select(vec![i32::MIN as i64 + 1, i32::MIN as i64 + 2, i32::MIN as i64 + 3, i32::MIN as i64 + 4, i32::MAX as i64 - 4, i32::MAX as i64 - 3, i32::MAX as i64 - 2, i32::MAX as i64 - 1])],
         proptest::collection::vec(arb_query(), 1..=n_queries),
         prop_oneof![2 => Just(0u8), 1 => 1u8..4],
     )
@@ -653,7 +687,7 @@ pub fn run_search(ctx: &Ctx, focus: Focus, rule_text: &str) -> Outcome {
     let mut out = Outcome::new(rule_text);
     out.assumptions = vec![
         "zones are valid by construction (last transition's type = what the trailer prescribes at its switch instant, by O-leap + O-rule)".into(),
-        "for |year| > i32::MAX - 200 only 'no panic, error is OutOfRange' is asserted".into(),
+        "local times within twice the zone's largest |offset| of either end of the supported range, or (DST-rule zones) in years outside i32::MIN+2..=i32::MAX-2: only 'no panic, error is OutOfRange' is asserted".into(),
         "zones whose rule is 'overlapping' are excluded by construction (recorded finding KF-C05-OVERLAP) and counted".into(),
     ];
     let known = crate::known::load();
